@@ -16,15 +16,24 @@ import random
 import sys
 
 from insights.core import dr
-from insights.core.context import (ClusterArchiveContext, DockerImageContext, ExecutionContext,
-                                   HostArchiveContext, HostContext, JDRContext, SerializedArchiveContext,
-                                   SosArchiveContext)
+from insights.core.context import (ClusterArchiveContext, DockerImageContext, ExecutionContext, FSRoots,
+                                   HostArchiveContext, HostContext, JDRContext, OpenStackContext,
+                                   SerializedArchiveContext, SosArchiveContext)
 from insights.core.exceptions import CalledProcessError, ContentException, SkipComponent
 from insights.core.plugins import datasource, parser
 from insights.core.spec_factory import RegistryPoint, SpecSet
 
-CTX_POOL = [HostContext, HostArchiveContext, SosArchiveContext, DockerImageContext, ClusterArchiveContext,
-            JDRContext]
+# Execution contexts of the histories: shipped ones registered as file-system roots (@fs_root), a shipped one
+# that is not (OpenStackContext), and generated third-party style ExecutionContext subclasses (no @fs_root; one
+# of them a subclass of a shipped context: the broker is keyed by the exact class).
+FS_POOL = [HostContext, HostArchiveContext, SosArchiveContext, DockerImageContext, ClusterArchiveContext,
+           JDRContext]
+PLAIN_POOL = [OpenStackContext,
+              type("VerifThirdPartyContext", (ExecutionContext,), {"__module__": "verif_generated"}),
+              type("VerifClusterLikeContext", (ExecutionContext,), {"__module__": "verif_generated"}),
+              type("VerifHostDerivedContext", (HostContext,), {"__module__": "verif_generated"})]
+CTX_POOL = FS_POOL + PLAIN_POOL
+assert not any(c in FSRoots for c in PLAIN_POOL)
 OTHER = 99
 FAILS = ["skip", "content", "crash", "cmd"]
 
@@ -44,9 +53,17 @@ class History(object):
         self.h = h
         self.rng = rng
         self.nctx = h["nctx"]
-        pool = list(CTX_POOL)
-        rng.shuffle(pool)
+        # by seed: only @fs_root contexts, only plain ones, or a mixture
+        r = rng.random()
+        pool = list(FS_POOL if r < 0.25 else (CTX_POOL if r < 0.75 else PLAIN_POOL + FS_POOL[:2]))
+        if r >= 0.75:
+            head, tail = pool[:len(PLAIN_POOL)], pool[len(PLAIN_POOL):]
+            rng.shuffle(head)
+            pool = head + tail
+        else:
+            rng.shuffle(pool)
         self.ctx = dict((i + 1, pool[i]) for i in range(self.nctx))     # abstract id -> context class
+        self.plain_ctx = sum(1 for c in self.ctx.values() if c not in FSRoots)
         self.ctx_id = dict((v, k) for k, v in self.ctx.items())
         self.impl = {}        # index -> datasource
         self.helper = {}      # index -> helper datasource of a "via" implementation
@@ -179,7 +196,7 @@ class History(object):
         arch = False
         if e["active"]:
             c = self.ctx[e["active"]]
-            broker[c] = c()
+            broker[c] = c("verif.example.com") if c is OpenStackContext else c()
         elif self.rng.random() < 0.5 and not any(
                 self.h["impls"][j - 1]["k"] == "viaimpl" and self.h["impls"][j - 1]["j"] in e["seeded"]
                 for j in e["seeded"]):
@@ -247,7 +264,8 @@ def run_history(h, rng):
                            "ignore": ignore, "handlers": handlers, "deps": deps})
         for e in h["evals"]:
             events.append(hist.evaluate(e))
-        return {"id": h["id"], "kind": "gen", "nctx": h["nctx"], "events": events}
+        return {"id": h["id"], "kind": "gen", "nctx": h["nctx"], "events": events,
+                "plain_ctx": hist.plain_ctx}
     finally:
         hist.cleanup()
 
@@ -327,6 +345,7 @@ def main():
         t = run_history(h, rng)
         stats["registrations"] += len(h["impls"])
         stats["evals"] += len(h["evals"])
+        stats["with_plain_ctx"] = stats.get("with_plain_ctx", 0) + (1 if t.pop("plain_ctx") else 0)
         traces.append(t)
     if inp.get("shipped"):
         st, names = shipped(inp["shipped_modules"])
